@@ -387,3 +387,132 @@ def not_change(ctx, prog):
     sp = ctx.fa("lbry.wallet.transaction.Input.spend")
     ok = "assert txo.script.is_pay_pubkey_hash" in unparse(sp.node)
     ctx.ob("C15-T5/TYPE", ok, sp.site(), "Input.spend refuses anything that does not end in pay-to-pubkey-hash", func=sp.fi.qualname)
+
+
+_base_check_c15 = check
+
+
+def check(ctx):            # noqa: F811  (extends the rules above)
+    _base_check_c15(ctx)
+    engines(ctx, ctx.prog)
+
+
+def engines(ctx, prog):
+    """the generic generate / parse engines that every template goes through: per opcode kind the generator writes and the parser stores
+    under exactly that kind's test; cursors start at 0, advance by one and must both be exhausted"""
+    import ast
+    from ..astutil import norm_text, dotted, is_const
+    from .. import rules as R
+    S = "lbry.wallet.script"
+    kinds = ["isinstance(opcode, PUSH_SINGLE)", "isinstance(opcode, PUSH_INTEGER)", "isinstance(opcode, PUSH_SUBSCRIPT)", "isinstance(opcode, PUSH_MANY)", "isinstance(opcode, SMALL_INTEGER)"]
+    ge = ctx.fa(f"{S}.Template.generate")
+    v = ge.fi.params()[1]
+    R.effect_table(ctx, "C15-T6/ENGINE", ge, kinds, [
+        (f"data = {v}[opcode.name]", kinds[0], "PUSH_SINGLE takes the value stored under the opcode's name", 0),
+        ("source.write_many(push_data(data))", kinds[0], "…and writes it as one minimal push", 0),
+        (f"data = {v}[opcode.name]", kinds[1], "PUSH_INTEGER takes the value under the opcode's name", 1),
+        ("source.write_many(push_data(data.to_bytes((data.bit_length() + 8) // 8, byteorder='little', signed=True)))", kinds[1],
+         "…and pushes it little endian with a spare sign byte ((bit_length + 8) // 8 bytes), which the unsigned little-endian reader inverts for heights >= 0"),
+        (f"data = {v}[opcode.name]", kinds[2], "PUSH_SUBSCRIPT takes the sub-script under the opcode's name", 2),
+        ("source.write_many(push_data(data.source))", kinds[2], "…and pushes its source bytes"),
+        ("source.write_many(push_data(data))", kinds[3], "PUSH_MANY pushes every element, each as one push", 1),
+        (f"data = {v}[opcode.name]", kinds[4], "SMALL_INTEGER takes the value under the opcode's name", 3),
+        ("source.write_many(push_small_integer(data))", kinds[4], "…and writes the small-integer opcode"),
+        ("source.write_uint8(opcode)", " and ".join("not " + k for k in kinds), "any other template element is written as the literal opcode byte"),
+        ("return source.get_bytes()", "", "the generated script is the stream's bytes"),
+    ], "generate: ")
+    lp = ge.stmts(ast.For)
+    ok = len(lp) >= 1 and norm_text(lp[0].iter) == "self.opcodes" and dotted(lp[0].target) == "opcode" and \
+        any(norm_text(f.iter) == f"{v}[opcode.name]" and dotted(f.target) == "data" for f in lp[1:]) and \
+        [norm_text(x.value) for x in ge.stmts(ast.Assign) if any(dotted(t) == "source" for t in x.targets)] == ["BCDataStream()"]
+    ctx.ob("C15-T6/ENGINE", ok, ge.site(), "generate: the template's opcodes are visited in order, into a fresh stream", func=ge.fi.qualname)
+    pa = ctx.fa(f"{S}.Parser.parse")
+    pv = ["self.token_index < len(self.tokens)", "self.opcode_index < len(self.opcodes)", "token.value == 0", "isinstance(opcode, PUSH_SINGLE)", "isinstance(token, DataToken)",
+          "isinstance(opcode, (PUSH_SINGLE, PUSH_INTEGER, PUSH_SUBSCRIPT))", "isinstance(opcode, PUSH_MANY)", "isinstance(token, SmallIntegerToken)", "isinstance(opcode, SMALL_INTEGER)",
+          "token.value == opcode"]
+    inloop = "self.token_index < len(self.tokens) and self.opcode_index < len(self.opcodes)"
+    R.effect_table(ctx, "C15-T6/ENGINE", pa, pv, [
+        ("token = self.tokens[self.token_index]", inloop, "the current token …"),
+        ("opcode = self.opcodes[self.opcode_index]", inloop, "… is matched against the current template element"),
+        ("token = DataToken(b'')", "token.value == 0 and isinstance(opcode, PUSH_SINGLE)", "OP_0 where data is expected is the empty push"),
+        ("self.push_single(opcode, token.value)", "isinstance(token, DataToken) and isinstance(opcode, (PUSH_SINGLE, PUSH_INTEGER, PUSH_SUBSCRIPT))", "a data token fills a single-push element"),
+        ("self.consume_many_non_greedy()", "isinstance(token, DataToken) and not isinstance(opcode, (PUSH_SINGLE, PUSH_INTEGER, PUSH_SUBSCRIPT)) and isinstance(opcode, PUSH_MANY)",
+         "…or starts a PUSH_MANY run"),
+        ("self.values[opcode.name] = token.value", "not isinstance(token, DataToken) and isinstance(token, SmallIntegerToken) and isinstance(opcode, SMALL_INTEGER)",
+         "a small-integer token fills a SMALL_INTEGER element"),
+        ("return self", "not self.token_index < len(self.tokens) and not self.opcode_index < len(self.opcodes)", "success only when tokens and template are both exhausted"),
+    ], "parse: ")
+    R.refusal_table(ctx, "C15-T6/ENGINE", pa, [
+        ("DataToken found but opcode was", "isinstance(token, DataToken) and not isinstance(opcode, (PUSH_SINGLE, PUSH_INTEGER, PUSH_SUBSCRIPT)) and not isinstance(opcode, PUSH_MANY)"),
+        ("SmallIntegerToken found but opcode was", "not isinstance(token, DataToken) and isinstance(token, SmallIntegerToken) and not isinstance(opcode, SMALL_INTEGER)"),
+        ("Token is", "not isinstance(token, DataToken) and not isinstance(token, SmallIntegerToken) and not token.value == opcode"),
+        ("without all tokens being consumed", "self.token_index < len(self.tokens)"),
+        ("without all opcodes being consumed", "not self.token_index < len(self.tokens) and self.opcode_index < len(self.opcodes)"),
+    ], "parse", extra_terms=pv)
+    wl = pa.stmts(ast.While)
+    ok = len(wl) == 1 and [norm_text(x) for x in wl[0].body[-2:]] == ["self.token_index += 1", "self.opcode_index += 1"]
+    ctx.ob("C15-T6/ENGINE", ok, pa.site(), "parse: both cursors advance at the end of every loop iteration, unconditionally", func=pa.fi.qualname, key="C15-T6/ENGINE|advance")
+    ok = len(wl) == 1 and R.same_test(wl[0].test, inloop) and not wl[0].orelse
+    ctx.ob("C15-T6/ENGINE", ok, pa.site(), "parse: the loop runs while both cursors are inside their lists", func=pa.fi.qualname)
+    for x in pa.stmts(ast.AugAssign):
+        ok = isinstance(x.op, ast.Add) and is_const(x.value, 1)
+        ctx.ob("C15-T6/ENGINE", ok, pa.site(x), "parse: cursor step is +1", func=pa.fi.qualname)
+    pi = ctx.fa(f"{S}.Parser.__init__")
+    t = [norm_text(x) for x in pi.stmts(ast.Assign)]
+    ok = "self.token_index = 0" in t and "self.opcode_index = 0" in t and "self.values = {}" in t and f"self.opcodes = {pi.fi.params()[1]}" in t and f"self.tokens = {pi.fi.params()[2]}" in t
+    ctx.ob("C15-T6/ENGINE", ok, pi.site(), "parse: cursors start at 0 with no values", func=pi.fi.qualname)
+    ps = ctx.fa(f"{S}.Parser.push_single")
+    o, val = ps.fi.params()[1:3]
+    k3 = [f"isinstance({o}, PUSH_SINGLE)", f"isinstance({o}, PUSH_INTEGER)", f"isinstance({o}, PUSH_SUBSCRIPT)"]
+    R.effect_table(ctx, "C15-T6/ENGINE", ps, k3, [
+        (f"self.values[{o}.name] = {val}", k3[0], "a PUSH_SINGLE value is stored as the pushed bytes"),
+        (f"self.values[{o}.name] = int.from_bytes({val}, 'little')", f"not {k3[0]} and {k3[1]}", "a PUSH_INTEGER value is read little endian"),
+        (f"self.values[{o}.name] = Script.from_source_with_template({val}, {o}.template)", f"not {k3[0]} and not {k3[1]} and {k3[2]}", "a PUSH_SUBSCRIPT value is parsed with the element's own template"),
+    ], "parse: ")
+    R.refusal_table(ctx, "C15-T6/ENGINE", ps, [("Not a push single or subscript", " and ".join("not " + k for k in k3))], "push_single")
+    sp = ctx.fa(f"{S}.Script.parse")
+    th = sp.fi.params()[1]
+    R.effect_table(ctx, "C15-T6/ENGINE", sp, ["tokens", th, "template"], [
+        (f"{th} = self.NO_SCRIPT", f"not tokens and not {th}", "an empty script without hint is the NO_SCRIPT template"),
+        ("self._values = template.parse(tokens)", "template", "every candidate template is tried on the tokens"),
+        ("self._template = template", "template", "the first template that parses is recorded"),
+    ], "classification: ")
+    for x in sp.stmts(ast.Assign):
+        if norm_text(x) == "self._template = template":
+            nx = R.next_stmt(x)
+            ctx.ob("C15-T6/ENGINE", isinstance(nx, ast.Return) and nx.value is None, sp.site(x), "classification: the search stops at the first template that parses (later, more "
+                   "general templates cannot override it)", func=sp.fi.qualname, key="C15-T6/ENGINE|first-match-wins")
+    tk = ctx.fa(f"{S}.token_producer")
+    src = tk.fi.params()[0]
+    tkv = ["token is not None", "is_push_data_token(token)", "is_small_integer(token)"]
+    R.effect_table(ctx, "C15-T2/TOKEN", tk, tkv, [
+        (f"yield DataToken(read_data(token, {src}))", "token is not None and is_push_data_token(token)", "a push opcode byte yields the pushed data"),
+        ("yield SmallIntegerToken(read_small_integer(token))", "token is not None and not is_push_data_token(token) and is_small_integer(token)", "a small-integer opcode yields its number"),
+        ("yield Token(token)", "token is not None and not is_push_data_token(token) and not is_small_integer(token)", "any other byte yields the opcode itself"),
+        (f"token = {src}.read_uint8()", "", "bytes are read one opcode at a time", 0),
+        (f"token = {src}.read_uint8()", "token is not None", "…until the stream is exhausted", 1),
+    ], "tokenizer: ")
+    lp = sp.stmts(ast.For)
+    ok = len(lp) == 1 and norm_text(lp[0].iter) == f"chain(({th},), self.templates)" and dotted(lp[0].target) == "template"
+    ctx.ob("C15-T6/ENGINE", ok, sp.site(), "classification: the hint is tried first, then the class's templates in their declared order", func=sp.fi.qualname, key="C15-T6/ENGINE|order")
+    hs = [h for t_ in sp.stmts(ast.Try) for h in t_.handlers]
+    ok = len(hs) == 1 and norm_text(hs[0].type) == "ParseError" and isinstance(hs[0].body[-1], ast.Continue)
+    ctx.ob("C15-T6/ENGINE", ok, sp.site(), "classification: only a ParseError moves on to the next template", func=sp.fi.qualname)
+    rz = R.raise_kinds(sp)
+    ok = len(rz) == 1 and rz[0][1] == "ValueError" and sp.must_precede(rz[0][0], lambda n: bool(lp) and n is lp[0].iter) is None
+    ctx.ob("C15-T6/ENGINE", ok, sp.site(), "classification: a script that matches no template is refused (ValueError) after all were tried", func=sp.fi.qualname)
+    tp = ctx.fa(f"{S}.Template.parse")
+    r = R.single_return_value(tp)
+    ok = r is not None and norm_text(r.value) == f"Parser(self.opcodes, {tp.fi.params()[1]}).parse().values if self.opcodes else {{}}"
+    ctx.ob("C15-T6/ENGINE", ok, tp.site(), "a template parses tokens with its own opcodes", func=tp.fi.qualname)
+    # database classification of an output
+    tr = ctx.fa("lbry.wallet.database.Database.txo_to_row")
+    tv = ["txo.script.is_claim_name", "txo.script.is_update_claim", "txo.can_decode_claim", "claim.is_repost", "claim.is_signed", "claim.is_stream", "txo.script.is_support_claim", "support",
+          "support.is_signed", "txo.purchase is not None", "txo.script.is_claim_involved", "txo.is_claim", "txo.is_support"]
+    R.effect_table(ctx, "C15-T5/ROW", tr, tv, [
+        ("row['txo_type'] = TXO_TYPES['purchase']", "txo.purchase is not None", "a purchase output is typed purchase"),
+        ("row['claim_id'] = txo.purchased_claim_id", "txo.purchase is not None", "…with the purchased claim id"),
+        ("row['claim_id'] = txo.claim_id", "txo.script.is_claim_involved", "claim-involved outputs carry their claim id"),
+        ("row['claim_name'] = txo.claim_name", "txo.script.is_claim_involved", "…and name"),
+        ("return row", "", "the row is returned"),
+    ], "row: ")
